@@ -12,6 +12,7 @@
    `^function\s+([^\(\)\{\}\s]+)\s*\(` is the field [r_fname]; the theorems hold for every value
    of these fields. *)
 From Adb Require Import Base Generated.
+Open Scope N_scope.
 
 Definition null {A} (l : list A) : bool := match l with [] => true | _ => false end.
 
@@ -77,9 +78,10 @@ Definition stringify_arg (quoted : bool) (arg : str) : str :=
 (* ------------------------------------------------------------------------------------------ *)
 (** * 3. L0: recogniser of ECMAScript double-quoted string literals
 
-   Accepted: `"` chars `"` where a char is a raw byte other than `"`, `\` and the control bytes
+   Accepted: DQ chars DQ (DQ = the double quote, byte 34) where a char is a raw byte other than DQ,
+   the backslash and the control bytes
    below 0x20 (bytes >= 0x80 are UTF-8 source text and stand for themselves; U+2028/2029 are legal
-   inside string literals since ES2019), or one of the escapes \" \\ \b \t \n \f \r \uXXXX.
+   inside string literals since ES2019), or one of the escapes \DQ \\ \b \t \n \f \r \uXXXX.
    Anything else (other escapes, raw control characters, a missing closing quote, a \u escape of a
    surrogate) is refused.  Result: the value of the literal as UTF-8 bytes, and the text that
    follows the closing quote. *)
@@ -104,7 +106,7 @@ Definition utf8_of_unit (v : N) : option str :=
   else Some [224 + v / 4096; 128 + (v / 64) mod 64; 128 + v mod 64].
 
 Definition simple_escape (e : N) : option N :=
-  if e =? 34 then Some 34        (* \" *)
+  if e =? 34 then Some 34        (* \DQ *)
   else if e =? 92 then Some 92   (* \\ *)
   else if e =? 98 then Some 8    (* \b *)
   else if e =? 116 then Some 9   (* \t *)
@@ -403,7 +405,7 @@ Fixpoint recursive_dependencies (fuel : nat) (st : store) (new_dep : str)
 (* enough for every store (theorem deps_terminate) *)
 Definition dep_fuel (st : store) : nat := S (length (st_res st)).
 
-(* TEMPLATE_ARGUMENT_RE[i].replace(&template, arg.replace('$', "$$")): the first `{{i+1}}` is
+(* TEMPLATE_ARGUMENT_RE[i].replace(&template, arg.replace('$', '$$')): the first `{{i+1}}` is
    replaced by the argument text itself *)
 Definition template_pattern (i : nat) : str := [123; 123; 49 + N.of_nat i; 125; 125].
 Definition replace_first (pat rep s : str) : str :=
